@@ -9,22 +9,22 @@ from rxsim.bytesim import gen_cuts, cut, drive, collect
 
 ENCODINGS = ['utf-8', 'utf-16', 'utf-32', 'latin-1', 'utf-8-sig', 'utf-16-le', 'utf-16-be', 'utf8']
 POOL = ['a', 'Z', ' ', '\n', '\x00', 'é', 'ÿ', '\x80']
-WIDE = ['\u20ac', '\u0436', '\u6f22', '\u0301', '\u200d', '\U0001F600', '\U00010348', '\U0010FFFF', '\ud7ff', '\ue000', '\ufffd', '\uffff']
+WIDE = ['\u20ac', '\u0436', '\u6f22', '\u0301', '\u200d', '\U0001F600', '\U00010348', '\U0010FFFF', '\ud7ff', '\ue000', '\ufffd', '\uffff', '\ufeff', '\ufeff']
 
 
 class C17(Check):
     id = 'C17'
     title = 'incremental text codec is chunk-boundary independent'
-    rule = ('case = string list over the full scalar range (astral characters, combining marks, empty strings; U+FEFF excluded so a stray BOM is '
-            'visible) encoded by the real encode() with utf-8 / utf-16 / utf-32 / latin-1 (+ utf-8-sig, utf-16-le/be); the concatenated bytes are '
+    rule = ('case = string list over the full scalar range (astral characters, combining marks, empty strings, U+FEFF as an '
+            'ordinary character anywhere incl. the very start) encoded by the real encode() with utf-8 / utf-16 / utf-32 / latin-1 (+ utf-8-sig, utf-16-le/be); the concatenated bytes are '
             're-cut by a seeded byte-level schedule biased to the inside of multi-byte sequences and surrogate pairs, and for streams <= 300 bytes '
             'every single cut position is swept; fed through the real decode(). oracle: joined decoded text == joined input; the reference codec '
             'b"".join(encoded).decode(encoding) gives the same text (which also decides "BOM written once"). non-trivial: >= 1 multi-byte '
             'character and >= 1 cut strictly inside the stream; distinct = distinct (strings, encoding, schedule)')
     real = ['rxsci.data.encode / decode (current working tree)', 'codecs incremental encoders/decoders (CPython)', 'RxPY Subject/pipe']
     stubs = ['producer of the strings', 'transport re-cutting the bytes', 'final subscriber']
-    assumptions = ['inputs contain no lone surrogates (not encodable) and no U+FEFF', 'latin-1 inputs are restricted to U+0000..U+00FF']
-    probe_names = ('cut_inside_multibyte', 'astral', 'combining', 'empty_string', 'bom_encoding', 'swept_all_single_cuts',
+    assumptions = ['inputs contain no lone surrogates (not encodable)', 'latin-1 inputs are restricted to U+0000..U+00FF']
+    probe_names = ('zwnbsp_in_text', 'cut_inside_multibyte', 'astral', 'combining', 'empty_string', 'bom_encoding', 'swept_all_single_cuts',
                    'enc:utf-8', 'enc:utf-16', 'enc:utf-32', 'enc:latin-1')
     quick_cap = 200000
 
@@ -42,7 +42,7 @@ class C17(Check):
             if case['encoding'] not in ENCODINGS:
                 return False
             for s in case['strings']:
-                if '\ufeff' in s or any(0xD800 <= ord(c) <= 0xDFFF for c in s):
+                if any(0xD800 <= ord(c) <= 0xDFFF for c in s):
                     return False
                 if case['encoding'] == 'latin-1' and any(ord(c) > 255 for c in s):
                     return False
@@ -112,6 +112,8 @@ class C17(Check):
             p['cut_inside_multibyte'] += 1
         if any(ord(c) > 0xFFFF for c in text):
             p['astral'] += 1
+        if '\ufeff' in text:
+            p['zwnbsp_in_text'] += 1
         if '\u0301' in text:
             p['combining'] += 1
         if any(s == '' for s in strings):
